@@ -4,7 +4,7 @@ import RedisVerif.Model.WalActor
 
 /-
   C09 sub-driver.  One line = one workload:
-    G <fix 0|1> <maxSize> <maxEntries> F <nf> {<callIndex> <ok|fail|full|torn:K>}*
+    G <fix 0|1> <format 1|2> <maxSize> <maxEntries> F <nf> {<callIndex> <ok|fail|full|torn:K>}*
       W <ngroups> {<nwrites> {<id> <ts> <hex>}*}*
   Output: the acks (sorted by id), the I/O call trace, and for EVERY crash index t (after t
   calls) the ids of the entries WAL recovery returns from the crash image.
@@ -48,6 +48,7 @@ def showCall : Call → String
 
 structure Workload where
   fix : Bool
+  fmt : Format
   maxSize : Nat
   maxEntries : Nat
   faults : List (Nat × Outcome)
@@ -56,6 +57,7 @@ structure Workload where
 def workloadP : P Workload := do
   expect "G"
   let f ← nat
+  let v ← nat
   let ms ← nat
   let me ← nat
   expect "F"
@@ -66,7 +68,7 @@ def workloadP : P Workload := do
   let gs ← repeatP ng (do
     let nw ← nat
     repeatP nw (do let id ← nat; let ts ← nat; let d ← bytesTok; pure (⟨id, d, ts⟩ : Write)))
-  pure ⟨f != 0, ms, me, fs, gs⟩
+  pure ⟨f != 0, if v = 1 then .v1 else .v2, ms, me, fs, gs⟩
 
 def oracleOf (fs : List (Nat × Outcome)) (i : Nat) : Outcome :=
   match fs.find? (·.1 == i) with
@@ -87,13 +89,13 @@ def step (line : String) : String :=
   match runP workloadP line with
   | none => "bad-op"
   | some wl =>
-    let a := Actor.runGroups wl.fix (oracleOf wl.faults) crc wl.maxSize wl.maxEntries wl.groups
+    let a := Actor.runGroups wl.fix (oracleOf wl.faults) wl.fmt crc wl.maxSize wl.maxEntries wl.groups
     let ws := wl.groups.flatten
     let acks := a.acks.foldl (fun acc x => insertAck x acc) []
     let acksS := " ".intercalate (acks.map (fun x => s!"{x.id}={showAck x.res}"))
     let traceS := " ".intercalate (a.rot.w.trace.reverse.map showCall)
     let crashS := " ; ".intercalate (a.rot.w.hist.reverse.map (fun st =>
-      " ".intercalate ((durable crc st).map (idOf ws))))
+      " ".intercalate ((durable wl.fmt crc st).map (idOf ws))))
     s!"acks {acksS} | trace {traceS} | crash {crashS}"
 
 end RedisVerif.Driver.C09
